@@ -2154,9 +2154,19 @@ func opcodeCheckMultiSig(op *ParsedOpcode, t *thread) error {
 	// Get script starting from the most recent bscript.OpCODESEPARATOR.
 	script := t.subScript()
 
+	// Signatures are deleted from the script code only for legacy (non-FORKID) signatures, as in
+	// OP_CHECKSIG; code separators are dropped per signature below, again only for legacy ones.
+	legacySig := func(rawSig []byte) bool {
+		if len(rawSig) == 0 {
+			return false
+		}
+		shf := sighash.Flag(rawSig[len(rawSig)-1])
+		return !t.hasFlag(scriptflag.EnableSighashForkID) || !shf.Has(sighash.ForkID)
+	}
 	for _, sigInfo := range signatures {
-		script = script.removeOpcodeByData(sigInfo.signature)
-		script = script.removeOpcode(bscript.OpCODESEPARATOR)
+		if legacySig(sigInfo.signature) {
+			script = script.removeOpcodeByData(sigInfo.signature)
+		}
 	}
 
 	success := true
@@ -2235,7 +2245,11 @@ func opcodeCheckMultiSig(op *ParsedOpcode, t *thread) error {
 			continue
 		}
 
-		up, err := t.scriptParser.Unparse(script)
+		scriptCode := script
+		if legacySig(rawSig) {
+			scriptCode = scriptCode.removeOpcode(bscript.OpCODESEPARATOR)
+		}
+		up, err := t.scriptParser.Unparse(scriptCode)
 		if err != nil {
 			t.dstack.PushBool(false)
 			return nil //nolint:nilerr // only need a false push in this case
